@@ -14,6 +14,11 @@ def run(tier, seed):
     if tier != "quick":
         out = cfgmachine.merge(out, cfgmachine.run_machine("C06", [], ["C06_Unchanged"], tier, seed + 7, schema="SchemaB"))
     out = cfgmachine.merge(out, cfgfamily.run_family("C06", [], ["C06_Unchanged"], tier, seed))
+    # rejected assignments where key files and secrets are involved (PersistMachine: a map assigned
+    # to a sub-configuration that names its own key file, after the configuration has been rendered)
+    from . import persist
+
+    out = cfgmachine.merge(out, persist.run_persist("C06", [], ["C06_SetUnchanged"], tier, seed))
     try:
         from . import loadfail
     except ImportError:
